@@ -10,12 +10,15 @@ C03 / C12 correspondence checks.
 Requests
 * `sv sim <design> <top> <cycles> <obs>` — elaborate the parsed design, report elaboration errors,
   driver conflicts and undriven variables, simulate (`settle`, sample, `tick`, sample per cycle)
-  under both readings of the size cast.
+  under both readings of the size cast.  A module may carry `(signed x …)`: the variables declared with a signed
+  type (`integer x;`); references to them are elaborated to their `$signed` view (`SV.Item.elabS`).
 * `sv portmap <yosys?> <path> <dims> <type>` — `Flat.portLeaves`: how one PyMTL port appears in the
   emitted module (name, unpacked element, slice of the packed value).
 * `sv blk <backend> <module> <rtlir-block> <parsed-block> <stores>` — semantic tie between the real
   translator and `VTr.trStmt`: execute the parsed always-block and the translation of the block's
   typed RTLIR by the model on every given store (both cast readings) and compare the results.
+* `sv safe <backend> <rtlir-block>` — `VTr.signSafeS`: whether the block lies inside the hypothesis of the
+  expression / statement theorems (no `< <= > >=` / `%` on two signed operands).
 -/
 namespace PV.Driver.Sv
 open PV PV.SV
@@ -42,6 +45,7 @@ def binop? : String → Option BinOp
   | "pow" => some .pow | "shl" => some .shl | "shr" => some .shr | "band" => some .band | "bor" => some .bor
   | "bxor" => some .bxor | "bxnor" => some .bxnor | "eq" => some .eq | "ne" => some .ne | "lt" => some .lt
   | "le" => some .le | "gt" => some .gt | "ge" => some .ge | "land" => some .land | "lor" => some .lor
+  | "ashr" => some .ashr
   | _ => none
 
 /-- `{a, b, c}` → `concat a (concat b c)`; `{a}` → `cat1 a` -/
@@ -67,6 +71,7 @@ partial def expr? : Sexp → Option Expr
   | .list [.atom "bin", .atom op, a, b] => do some (.bin (← binop? op) (← expr? a) (← expr? b))
   | .list [.atom "cond", c, t, f] => do some (.cond (← expr? c) (← expr? t) (← expr? f))
   | .list [.atom "cast", w, e] => do some (.cast (← w.nat?) (← expr? e))
+  | .list [.atom "sgn", e] => do some (.sgn (← expr? e))
   | _ => none
 
 partial def stmt? : Sexp → Option Stmt
@@ -91,7 +96,13 @@ def item? : Sexp → Option Item
       some (.inst m i cs)
   | _ => none
 
-def module? : Sexp → Option Module
+/-- the names a module declares with a signed type: `(signed x y …)`, the optional seventh member -/
+def moduleSigned? : Sexp → Option (List String)
+  | .list [.atom "module", _, _, _, _, _] => some []
+  | .list [.atom "module", _, _, _, _, _, .list (.atom "signed" :: xs)] => xs.mapM Sexp.sym?
+  | _ => none
+
+def moduleCore? : Sexp → Option Module
   | .list [.atom "module", .atom name, .list (.atom "ports" :: ps), .list (.atom "decls" :: ds),
            .list (.atom "params" :: qs), .list (.atom "items" :: is)] => do
       let ports ← ps.mapM fun p => match p with
@@ -107,6 +118,14 @@ def module? : Sexp → Option Module
         | _ => none
       some ⟨name, ports, decls, params, ← is.mapM item?⟩
   | _ => none
+
+/-- a module; references to its variables of a signed type are elaborated (`SV.Item.elabS`) -/
+def module? (x : Sexp) : Option Module := do
+  let sg ← moduleSigned? x
+  let core ← match x with
+    | .list [a, b, c, d, e, f, _] => moduleCore? (.list [a, b, c, d, e, f])
+    | _ => moduleCore? x
+  some (if sg.isEmpty then core else { core with items := core.items.map (Item.elabS sg) })
 
 def design? : Sexp → Option (List Module)
   | .list (.atom "design" :: ms) => ms.mapM module?
@@ -142,6 +161,7 @@ partial def illTyped (Γ : Env) : Expr → List String
   | .bin _ a b => illTyped Γ a ++ illTyped Γ b
   | .cond c t f => illTyped Γ c ++ illTyped Γ t ++ illTyped Γ f
   | .cast _ e => illTyped Γ e
+  | .sgn e => illTyped Γ e
 
 partial def illTypedStmt (Γ : Env) : Stmt → List String
   | .skip => []
@@ -397,7 +417,10 @@ def handle (args : List Sexp) : Option String :=
   | [.atom "portmap", y, path, dims, ty] => do
       some (portmapReply (← y.bool?) (← (← path.list?).mapM tok?) (← dims.nats?) (← pty? ty))
   | [.atom "blk", be, m, r, parsed, stores] => do
-      some (blkReply (← backend? be) (← module? m) (← rstmt? r) (← stmt? parsed) (← (← stores.list?).mapM sets?))
+      some (blkReply (← backend? be) (← module? m) (← rstmt? r) ((← stmt? parsed).elabS (← moduleSigned? m))
+        (← (← stores.list?).mapM sets?))
+  | [.atom "safe", be, r] => do
+      some (if VTr.signSafeS (← backend? be) (← rstmt? r) then "safe" else "signed-operator")
   | [.atom "sim", d, .atom top, cyc, obs] => do
       let mods ← design? d
       let cycles ← cycles? cyc
